@@ -83,15 +83,20 @@ def g_argstr(rng):
 def choose_arg(rng, a, first_noout, perturb=0.0):
     """a mostly-valid choice (gap, quoted, escape bits) for argument a"""
     need_q = a == "" or " " in a or "#" in a or (first_noout and a.startswith("="))
-    for c in (a[:1], a[-1:]):
-        if c and c in WS and c not in "\t\n\r":
-            need_q = True
+    # a token that ENDS in a blank needs quotes (the line is trimmed when it is the last token); a blank other than the plain space
+    # at the START of an unquoted token is data (seed C01-w5-m1: skipped like a separator), so half of those stay unquoted
+    c = a[-1:]
+    if c and c in WS and c not in "\t\n\r":
+        need_q = True
+    c = a[:1]
+    if c and c in WS and c not in "\t\n\r" and rng.random() < 0.5:
+        need_q = True
     q = need_q or rng.random() < 0.4
     if rng.random() < perturb:
         q = not q
     bits = []
     for k, c in enumerate(a):
-        must = c in "\\\n\r" or (q and c == '"') or (not q and k == 0 and c == '"') or (not q and c == "\t" and k in (0, len(a) - 1))
+        must = c in "\\\n\r" or (q and c == '"') or (not q and k == 0 and c == '"') or (not q and c == "\t" and (k == len(a) - 1 or (k == 0 and rng.random() < 0.5)))
         b = must or rng.random() < 0.3
         if rng.random() < perturb / 4:
             b = not b
